@@ -326,13 +326,9 @@ def check_average(ctx):
     ev = Evaluator(ctx.prog, inline=inl, opaque_kind=REPO_RESULT_KIND)
     res, st = ev.run_function(fi, args={'x': x, 'y': y, 'interval': n})
     views = [e for e in ev.events if e.kind == 'call' and e.data['callee'].name == 'to_2d_array']
-    ok = isinstance(res, Tup) and len(res.items) == 2 and len(views) == 2
+    ok = isinstance(res, Tup) and len(res.items) == 2 and len(views) >= 1
     detail = show(res, 300)
     if ok:
-        def wraps(e, arr):
-            o = e.data['bound'].get('self') if e.data['bound'] else None
-            recv = [v for v in walk_vals(e.data['term'])]
-            return True
         # which view wraps which array: look at the heap of the receiver objects
         heap = ev.top_state.heap
         recs = {}
@@ -344,15 +340,20 @@ def check_average(ctx):
             recs[e.seq] = (f.get('a'), f.get('n'), e.data['term'])
         vx = [t for a_, n_, t in recs.values() if isinstance(a_, Num) and a_.r == x.r and veq(n_, n)]
         vy = [t for a_, n_, t in recs.values() if isinstance(a_, Num) and a_.r == y.r and veq(n_, n)]
-        ok = len(vx) == 1 and len(vy) == 1
-        if ok:
-            rx, ry = arr_term(res.items[0]), arr_term(res.items[1])
-            okx = isinstance(rx, Term) and rx.head in ('col', 'item', 'index') and any(veq(t, vx[0]) for t in walk_vals(rx)) and \
-                any(isinstance(t, Num) and t.is_const() and t.const() == 0 for t in walk_vals(rx))
-            oky = isinstance(ry, Term) and ry.head == 'lib:numpy.nanmean' and veq(targ(ry, 'a', 0), vy[0]) and isinstance(targ(ry, 'axis', 1), Num) \
-                and targ(ry, 'axis', 1).is_const() and targ(ry, 'axis', 1).const() == 1
-            ok = okx and oky
-            detail = f"x: {show(rx, 160)}\ny: {show(ry, 160)}"
+        rx, ry = arr_term(res.items[0]), arr_term(res.items[1])
+        # x: first column of the interval view of x, or (the same elements) every interval-th sample of x
+        okx = len(vx) == 1 and isinstance(rx, Term) and rx.head in ('col', 'item', 'index') and any(veq(t, vx[0]) for t in walk_vals(rx)) and \
+            any(isinstance(t, Num) and t.is_const() and t.const() == 0 for t in walk_vals(rx))
+        if not okx and isinstance(rx, Term) and rx.head == 'slice_of' and len(rx.args) == 2 and same(rx.args[0], x):
+            sl = rx.args[1]
+            if isinstance(sl, Term) and sl.head == 'slice' and len(sl.args) == 3:
+                lo, hi, step = sl.args
+                okx = (isinstance(lo, Const) and lo.v is None or isinstance(lo, Num) and lo.is_const() and lo.const() == 0) and isinstance(hi, Const) \
+                    and hi.v is None and veq(step, n)
+        oky = len(vy) == 1 and isinstance(ry, Term) and ry.head == 'lib:numpy.nanmean' and veq(targ(ry, 'a', 0), vy[0]) and isinstance(targ(ry, 'axis', 1), Num) \
+            and targ(ry, 'axis', 1).is_const() and targ(ry, 'axis', 1).const() == 1
+        ok = okx and oky
+        detail = f"x: {show(rx, 160)}\ny: {show(ry, 160)}"
     ctx.check(ok, 'C17.6', 'average: row means (NaN-ignoring, axis=1) of the interval view of y; first column of the interval view of x', detail, fi.loc(), fi.qualname, 'average')
 
 
